@@ -610,9 +610,14 @@ def main():
         ):
             old_value = old_value.replace(" ", "\n")
 
+        # The saved copy must not define the old value's Anchor a second time
+        saved_value = Nodes.clone_node(old_value)
+        if hasattr(saved_value, "anchor") and saved_value.anchor.value:
+            saved_value.yaml_set_anchor(None)
+
         try:
             processor.set_value(
-                saveto_path, Nodes.clone_node(old_value),
+                saveto_path, saved_value,
                 value_format=old_format, tag=args.tag)
         except YAMLPathException as ex:
             log.critical(ex, 1)
